@@ -124,6 +124,15 @@ package netflow9
 //@     step [value] fd9Value(fields[len(fields)-1], tr.FieldSpecifiers[i], m, d.reader, iter(d.reader.count))
 //@     decreases len(tr.FieldSpecifiers) - i
 
+//@ uninterp specMinRec9(tr TemplateRecord) mathint
+//@ func (TemplateRecord).minRecordLen
+//@   ensures result >= 1
+//@   ensures [trusted.def] result == specMinRec9(tr)
+//@   loop 1
+//@     invariant 0 <= n && n <= 65535 * range_i
+//@   loop 2
+//@     invariant 0 <= n && n <= 65535 * (len(tr.ScopeFieldSpecifiers) + range_i)
+
 //@ func NewDecoder
 //@   opt borrows b
 //@   ensures result != nil && result.raddr == raddr && rdr(result.reader) && result.reader.base == b && result.reader.count == 0
@@ -157,6 +166,8 @@ package netflow9
 //@     invariant [kept] msg.DataSets.off == old(msg.DataSets.off) && (forall q :: msg.DataSets.off <= q && q < msg.DataSets.off + old(len(msg.DataSets)) ==> msg.DataSets.arr[q] == old(msg.DataSets.arr)[q])
 //@     invariant [nodata] setHeader.FlowSetID <= 1 || (4 <= setHeader.FlowSetID && setHeader.FlowSetID <= 255) ==> len(msg.DataSets) == old(len(msg.DataSets))
 //@     invariant [unk] setHeader.FlowSetID > 255 && !cacheHas9(old(mem), d.raddr, setHeader.FlowSetID) ==> err != nil && len(msg.DataSets) == old(len(msg.DataSets))
+//@     invariant [rule] minLen >= 1 && (setHeader.FlowSetID > 255 && cacheHas9(old(mem), d.raddr, setHeader.FlowSetID) ==> minLen == specMinRec9(tr))
+//@     exit [allrecords] err == nil && setHeader.FlowSetID > 255 ==> setHeader.Length - (d.reader.count - startCount) < specMinRec9(tr) || len(d.reader.data) < specMinRec9(tr)
 //@     invariant [tpl] setHeader.FlowSetID > 255 && cacheHas9(old(mem), d.raddr, setHeader.FlowSetID) ==> tr == cacheGet9(old(mem), d.raddr, setHeader.FlowSetID)
 //@     step [record] len(msg.DataSets) == iter(len(msg.DataSets)) || (len(msg.DataSets) == iter(len(msg.DataSets)) + 1 && setHeader.FlowSetID > 1)
 //@     invariant [wf] wellFormed9(mem)
